@@ -241,9 +241,9 @@ class Check:
             mod = "Verif." + props_file.replace(".v", "").replace("/", ".")
             rc2, out2, err2 = sh(["coqchk", "-o", "-silent", "-Q", ".", "Verif", mod], cwd=COQ, timeout=3000)
             txt = out2 + err2
-            ax = re.findall(r"^\s+([A-Za-z_][\w.']*)\s*$", txt.split("Axioms:")[-1], flags=re.M) if "Axioms:" in txt else []
-            self.notes["coqchk"] = {"rc": rc2, "axioms_of_all_loaded_libraries": ax[:60],
-                                    "tail": txt.strip().splitlines()[-6:]}
+            summ = txt.split("CONTEXT SUMMARY")[-1] if "CONTEXT SUMMARY" in txt else txt[-800:]
+            self.notes["coqchk"] = {"rc": rc2, "cmd": "coqchk -o -silent -Q . Verif " + mod,
+                                    "context_summary": " ".join(summ.replace("=", "").split())[:1500]}
             if rc2 != 0:
                 self.broke("proof", "coqchk " + mod, txt[-1500:])
         tb = ["Coq 8.16.1 kernel (coqc, full .vo build; vm_compute used, native_compute not used)"]
